@@ -164,8 +164,8 @@ let run_case cid t h v ops =
           Printf.printf "%s eps:%s %s\n" cid r (show_res show_val (deser_eps_top (n_of_hex r) h dt bytes))
       | ["tinfo"] ->
         let b x = if x then "1" else "0" in
-        Printf.printf "%s tinfo pow2=%s wf=%s wt=%s deser=%s exh=%s unit=%s\n" cid (b (units_pow2 t)) (b (wf t)) (b (wt t v))
-          (b (deserializable dt)) (b (exhausted_in t v)) (hex_of_n (unit_of dt))
+        Printf.printf "%s tinfo pow2=%s wf=%s wt=%s deser=%s exh=%s unit=%s need=%s cover=%s\n" cid (b (units_pow2 t)) (b (wf t)) (b (wt t v))
+          (b (deserializable dt)) (b (exhausted_in t v)) (hex_of_n (unit_of dt)) (hex_of_n (need t v)) (b (units_cover t))
       | ["schema"] ->
         let rs = schema_of evs in
         if out = SDone then
